@@ -436,12 +436,13 @@ def r_files(ctx, model):
     used = set()
     for mname, mod in live_modules(model):
         for n2 in ast.walk(mod.tree):
-            if isinstance(n2, ast.Call):
-                nm = (dotted_name(n2.func) or "").split(".")[-1]
+            # any reference counts (a writer stored as a class attribute or passed on is called later)
+            if isinstance(n2, (ast.Name, ast.Attribute)) and isinstance(getattr(n2, "ctx", None), ast.Load):
+                nm = (dotted_name(n2) or "").split(".")[-1]
                 if nm in modes:
                     used.add(nm)
     bad = sorted(u for u in used if modes[u] != "w")
-    ctx.check(not bad and {"save_x_tp", "save_x_tv"} <= used, "qha writers called by cij truncate their file", Where("cij/core/calculator.py", "write_table", 0),
+    ctx.check(not bad, "qha writers referenced by cij truncate their file", Where("cij/core/calculator.py", "write_table", 0),
               expected="only 'w'-mode writers (save_x_tp, save_x_tv)", found=f"used {sorted(used)}; append-mode: {bad}",
               explanation="cij calls a qha writer that appends to its file", key="qha.writers")
 
